@@ -130,6 +130,14 @@ def targeted_mutants(doc_small, doc_shipped):
         "2-cycle": [("lb", ["lb2"]), ("lb2", ["lb"])], "3-cycle": [("lb", ["lb2"]), ("lb2", ["lb3"]), ("lb3", ["lb"])],
         "diamond": [("lb", ["lb2", "lb3"]), ("lb2", ["direct"]), ("lb3", ["direct"])],
         "self plus direct": [("lb", ["lb", "direct"])],
+        # a cycle that the entry balancer only leads into, in every declaration order
+        "lead-in then 2-cycle": [("lb", ["in-a"]), ("in-a", ["in-b"]), ("in-b", ["in-a"])],
+        "2-cycle then lead-in": [("in-a", ["in-b"]), ("in-b", ["in-a"]), ("lb", ["in-a"])],
+        "cycle member, lead-in, cycle member": [("in-a", ["in-b"]), ("lb", ["in-a"]), ("in-b", ["in-a"])],
+        "lead-in then self": [("lb", ["in-s", "direct"]), ("in-s", ["in-s"])],
+        "self then lead-in": [("in-s", ["in-s"]), ("lb", ["in-s"])],
+        "two lead-ins into a 3-cycle": [("lb", ["l2"]), ("l2", ["c1"]), ("c1", ["c2"]), ("c2", ["c3"]), ("c3", ["c1"])],
+        "chain of eight": [("lb", ["lb2"])] + [("lb%d" % i, ["lb%d" % (i + 1)]) for i in range(2, 8)] + [("lb8", ["direct"])],
     }
     for gname, g in graphs.items():
         def fn(d, g=g):
